@@ -48,8 +48,11 @@ def check_C06(tier, seed):
         pats = ["P322", "P222", "P232", "P223", "P2222", "P3222"]
         md = {(f, p): (4 if len(p) == 5 and f in ("get", "geterr") else 3) for f in ("get", "geterr", "setnum") for p in pats}
     run_index(out, ["get", "geterr", "setnum"], pats, md, ["Prop_C06", "Prop_C05"], "C06")
+    from .checks_traces import run_traces
+    run_traces(out, "C06", tier)
     out.exhaustive = True
     out.assumptions += [
+        "direction B: recorded random programs (reads and writes with random keys on arrays of up to 5 dimensions) validated by TLC",
         "every key is replayed under every applicable spelling (dict by letter, dict by name, tuple, single item, "
         "Ellipsis / empty dict) in symbolic mode and on float64 arrays in C and Fortran layout",
         "subset Dimensions per base dimension: a reordered multi-item subset, a single-item subset and (length 3) a full reordering",
@@ -69,6 +72,8 @@ def check_C05(tier, seed):
     run_index(out, ["setarr", "setnum"], pats, md, ["Prop_C05"], "C05")
     from .checks_workspace import run_workspace  # histories of assignments
     run_workspace(out, "C05", tier)
+    from .checks_traces import run_traces
+    run_traces(out, "C05", tier)
     out.assumptions += [
         "array sources: every order of the region's dims, every order with one surplus dimension (summed by label), every list "
         "lacking one region dimension (refused); list selections are only combined with number sources (the statement leaves "
